@@ -3,9 +3,8 @@
    function of each path: the token's own type decides the visit, serde's primitive visitor accepts or
    rejects): integers and booleans come out verbatim, strings through the flavor's decode, for every
    target width; struct targets drop unknown fields in their entirety.
-   NOT proved: the three token walks themselves (BinDeTape / BinDeOndemand / BinDeStream models are not
-   written); their pairwise agreement and equality with the encoded value are carried by the oracle
-   streams of props/C04.py (including findings B and C). *)
+   The three deserializer walks themselves (BinDeTape / BinDeOndemand / BinDeReader), their equality with
+   the specification over abstract documents and their pairwise agreement are in Props/C04_walk.v. *)
 From JV Require Import Bytes Derive Serde.
 From JV.proofs Require Import DeriveProofs SerdeProofs.
 Open Scope N_scope.
